@@ -319,8 +319,12 @@ func (r *Report) writeEvidence(dir, prop string, mine []*OblSummary, nobl, disch
 	}
 	for _, k := range sortedKeys(r.Prog.Contracts) {
 		c := r.Prog.Contracts[k]
-		for f := range c.Flags {
-			assumptions = append(assumptions, fmt.Sprintf("flag %s on %s", f, c.Target))
+		for _, f := range sortedKeys(c.Flags) {
+			if f == "trusted" {
+				assumptions = append(assumptions, "TRUSTED (contract assumed, body not verified): "+c.Target)
+			} else if f != "pure" {
+				assumptions = append(assumptions, fmt.Sprintf("flag %s on %s", f, c.Target))
+			}
 		}
 	}
 	assumptions = append(assumptions,
